@@ -110,11 +110,17 @@ def _einsum_cases(ctx):
         cases.append(dict(subscripts='lgh,hml->gml', lhs_shape=[l, g, g], rhs_shape=[g, m, l], axis_names=ZXY,
                           mesh_shape=[z, x, y], rhs_spec=['z', 'x', 'y'], out_spec=['z', 'x', 'y']))
     out = []
+    combos = [(True, False), (False, False), (None, True), (True, True), (False, True)]
     for k, cs_ in enumerate(cases):
-        combos = [(True, False), (False, False), (None, True), (True, True), (False, True)]
-        if quick:
-            combos = [combos[k % 5], combos[(k + 1) % 5]] if k > 8 else combos[:3]
-        for (g, rv) in combos:
+        if not quick:
+            sel = combos
+        elif k < 5:
+            sel = combos[:3]                       # rings of size 1,2,4,6,8: gather, scatter, default
+        elif cs_['subscripts'] == 'ij,jk->ik':
+            sel = [combos[k % 2]]
+        else:
+            sel = [combos[k % 5]]
+        for (g, rv) in sel:
             out.append(dict(cs_, gather=g, rev=rv, seed=int(rng.integers(0, 2 ** 31))))
     return out
 
@@ -147,7 +153,7 @@ def generate(ctx):
     # reshapes and longitude derivative under a mesh
     ms = [(1, 2, 2), (2, 4, 1), (2, 2, 2)] if quick else [(1, 2, 2), (2, 4, 1), (2, 2, 2), (1, 8, 1), (1, 4, 2), (1, 1, 1), (4, 2, 1), (1, 2, 4), (2, 1, 4)]
     for (z, x, y) in ms:
-        for Z in ([1, z * 2] if z > 1 else [1, 3]):
+        for Z in (([1, z * 2] if z > 1 else [1, 3]) if not quick else [z * 2 if z > 1 else (1 if x == 2 else 3)]):
             q = int(rng.integers(1, 4))
             yield 'reshape', dict(mesh=[z, x, y], Z=Z, M=2 * q * x, L=y * int(rng.integers(1, 3)), seed=int(rng.integers(0, 2 ** 31)))
             yield 'dlon', dict(mesh=[z, x, y], Z=Z, M=2 * q * x, L=y * int(rng.integers(1, 3)), seed=int(rng.integers(0, 2 ** 31)))
@@ -164,7 +170,7 @@ def generate(ctx):
 
     # ---- whole operators on a mesh (implementation-level oracle: sharded == unsharded, padding inert) ----
     all_meshes = [(z, x, y) for z in (1, 2, 4, 8) for x in (1, 2, 4, 8) for y in (1, 2, 4, 8) if z * x * y <= 8]
-    gm = [(2, 1, 1), (1, 2, 2), (2, 2, 2), (1, 4, 2)] if quick else all_meshes
+    gm = [(2, 1, 1), (1, 4, 2), (2, 2, 2)] if quick else all_meshes
     for i, (z, x, y) in enumerate(gm):
         L = int(rng.integers(4, 8)) if quick else int(rng.integers(4, 11))
         K = int(rng.choice([3, 5])) if z > 1 else int(rng.integers(1, 4))      # level counts not divisible by z
@@ -184,7 +190,7 @@ def generate(ctx):
         yield 'implicit', dict(mesh=[z, x, y], L=int(rng.integers(4, 7)), bounds=b, seed=int(rng.integers(0, 2 ** 31)),
                                eta=float(rng.integers(1, 33)) / 64)
     if not quick:
-        for (z, x, y) in all_meshes:
+        for (z, x, y) in [(2, 1, 1), (1, 2, 2), (2, 2, 2), (1, 4, 2), (4, 2, 1), (8, 1, 1), (1, 1, 8), (1, 8, 1), (2, 1, 4), (4, 1, 1)]:
             k = 2 if z > 1 else 4
             b = util.uneven_boundaries(rng, max(z * k // (2 if z == 8 else 1), z), 4).tolist()
             yield 'step', dict(mesh=[z, x, y], L=6, bounds=b, seed=int(rng.integers(0, 2 ** 31)))
